@@ -70,7 +70,7 @@ def _observe(job):
                   files_max_size=LIMIT if st["limit"] else 0)
 
         def resolve(a):
-            return FileResolver(FileResolverConfig(**kw)).resolve(a)
+            return FileResolver(FileResolverConfig(**kw)).resolve([x.replace("ABS", t) for x in a])
         res = resolve(list(args))
         rev = resolve(list(reversed(args)))
         perm_same = [str(p) for p in res] == [str(p) for p in rev]
@@ -94,11 +94,11 @@ def _observe(job):
             from harness.props.c16 import run_cli
             argv = ["--list-files"] + (["--extend-include", "*.txt"] if st["extinc"] else []) + (["--exclude", "drafts/"] if st["excl"] else []) \
                 + {"none": [], "base": ["--extend-exclude", "deep/"], "path": ["--extend-exclude", "sub/deep/"]}[st["extexcl"]] + (["--force-exclude"] if st["force"] else []) \
-                + ["--files-max-size", str(LIMIT if st["limit"] else 0)] + list(args)
+                + ["--files-max-size", str(LIMIT if st["limit"] else 0)] + [x.replace("ABS", t) for x in args]
             rc, out, err = run_cli(argv)
             cli_same = rc == 0 and [x for x in out.split("\n") if x] == paths
         return dict(idx=idx, result=sorted({ident(p, t, root) for p in paths}), sorted_ok=paths == sorted(paths),
-                    abs_ok=all(os.path.isabs(p) for p in paths), nodup_ok=len(set(paths)) == len(paths),
+                    abs_ok=all(os.path.isabs(p) and p == os.path.normpath(p) for p in paths), nodup_ok=len({os.path.realpath(p) for p in paths}) == len(paths),
                     perm_same=perm_same, cli_same=cli_same, paths=[os.path.relpath(p, t) for p in paths], exc=None)
     except BaseException as e:  # noqa: BLE001
         return dict(idx=idx, result=[], sorted_ok=False, abs_ok=False, nodup_ok=False, perm_same=False, cli_same=False, paths=[], exc=repr(e))
@@ -110,7 +110,7 @@ def _observe(job):
 def run(tier: str) -> int:
     chk = Check("C17", tier, "model_checking")
     maxargs = 2 if tier == "quick" else 3
-    chk.rule = (f"cases = every point of spec/Resolve.tla: 96 settings x every argument list of length <= {maxargs} over 13 arguments "
+    chk.rule = (f"cases = every point of spec/Resolve.tla: 96 settings x every argument list of length <= {maxargs} over 14 arguments "
                 "(directories, files in different spellings, globs, a symlinked directory) on a 15-entry tree; quick executes every "
                 "second point (seeded offset), thorough all; non-trivial = point whose Must set is non-empty and differs from the unfiltered tree")
     chk.assumptions = ["the universe is one rich tree (sizes at and over the limit, excluded dirs, ignore file, four kinds of symlink)",
